@@ -598,26 +598,50 @@ def rule_closed_error(ck):
     for c in sites:
         h = q.protected_by(pm, c, "StreamClosedError")
         ck.ob(R, wm, c, h is not None and any(_raises(st, CLOSED_ERR) for st in h.body), "a synchronously failing write on a closed stream surfaces as WebSocketClosedError")
+    # the future of the stream write is awaited inside a translating function: a nested closure of write_message or a
+    # private method of the class that write_message calls (a closure moved to a method is analysed the same way)
+    cands = list(ck.repo.nested(wm))
+    called = {c.func.attr for c in q.calls(wm.node) if isinstance(c.func, ast.Attribute) and isinstance(c.func.value, ast.Name) and c.func.value.id == "self"}
+    called |= {x.attr for x in q.walk_body(wm.node) if isinstance(x, ast.Attribute) and isinstance(x.value, ast.Name) and x.value.id == "self"}
+    for m in ck.repo.direct_methods(W, P13):
+        if m.name in called and m.name.startswith("_") and isinstance(m.node, ast.AsyncFunctionDef) and m.name not in ("_receive_frame", "_receive_frame_loop", "_accept_connection", "_read_bytes"):
+            cands.append(m)
+    translating = set()
     n_aw = 0
-    for fi in ck.repo.nested(wm):
+    for fi in cands:
         npm = q.parent_map(fi.node)
-        for x in q.walk_body(fi.node):
-            if isinstance(x, ast.Await):
-                n_aw += 1
-                h = q.protected_by(npm, x, "StreamClosedError")
-                ck.ob(R, fi, x, h is not None and any(_raises(st, CLOSED_ERR) for st in h.body), "an asynchronously failing write surfaces as WebSocketClosedError")
+        aws = [x for x in q.walk_body(fi.node) if isinstance(x, ast.Await)]
+        if not aws:
+            continue
+        allok = True
+        for x in aws:
+            n_aw += 1
+            h = q.protected_by(npm, x, "StreamClosedError")
+            ok = h is not None and any(_raises(st, CLOSED_ERR) for st in h.body)
+            allok = allok and ok
+            ck.ob(R, fi, x, ok, "an asynchronously failing write surfaces as WebSocketClosedError")
+        if allok:
+            translating.add(fi.name)
     ck.floor(R, n_aw, 1, "awaited write futures in write_message")
-    # no shortcut: the raw future of the stream write never leaves write_message (it is only awaited inside the translating wrapper)
+    # no shortcut: the raw future of the stream write never leaves write_message other than through a translating function
     raw = set()
     for st_ in q.walk_body(wm.node):
         if isinstance(st_, (ast.Assign, ast.AnnAssign)) and getattr(st_, "value", None) is not None and any(c is x for c in sites for x in ast.walk(st_.value)):
             raw |= {p_ for p_ in q.assigned_paths(st_)}
     rets = [x for x in q.walk_body(wm.node) if isinstance(x, ast.Return) and x.value is not None]
     ck.floor(R, len(rets), 1, "return statements in write_message")
+
+    def leaks(e) -> bool:
+        if isinstance(e, ast.Call) and q.call_attr(e) in translating:
+            return False  # handed to the translating function
+        if isinstance(e, ast.Name) and e.id in raw:
+            return True
+        if any(e is c for c in sites):
+            return True
+        return any(leaks(ch) for ch in ast.iter_child_nodes(e))
+
     for r in rets:
-        direct = any(c is x for c in sites for x in ast.walk(r.value))
-        leaks = direct or any(isinstance(y, ast.Name) and y.id in raw for y in ast.walk(r.value))
-        ck.ob(R, wm, r, not leaks, "write_message never returns the stream's own write future (its StreamClosedError would not be translated to WebSocketClosedError): every returned future goes through the translating wrapper")
+        ck.ob(R, wm, r, not leaks(r.value), "write_message never returns the stream's own write future (its StreamClosedError would not be translated to WebSocketClosedError): every returned future goes through the translating wrapper")
 
 
 def run(ck):
